@@ -720,6 +720,15 @@ def process_extract(header, directives, ctx):
                 if payload:
                     edits.append(Edit(toks[hb].start, toks[hb].start, '\n' + payload + '\n', 'loop', ''))
                     rec['inserts'] += 1
+            elif d[0] == 'loop_body_end':
+                n, payload = d[1]
+                lps = loops_in(toks, bo + 1, bc)
+                if n < 1 or n > len(lps):
+                    raise Undecided('%s: loop %d not found (%d loops)' % (name, n, len(lps)))
+                kw, hb = lps[n - 1]
+                e = match_close(toks, hb)
+                edits.append(Edit(toks[e].start, toks[e].start, '\n' + payload + '\n', 'ghost', ''))
+                rec['inserts'] += 1
             elif d[0] == 'after_loop':
                 n, payload = d[1]
                 lps = loops_in(toks, bo + 1, bc)
@@ -761,7 +770,7 @@ def process_extract(header, directives, ctx):
         text = apply_edits(text, edits)
     else:
         for d in directives:
-            if d[0] in ('ret', 'sig', 'loop', 'before', 'after', 'body_start', 'opaque_body', 'after_loop'):
+            if d[0] in ('ret', 'sig', 'loop', 'before', 'after', 'body_start', 'opaque_body', 'after_loop', 'loop_body_end'):
                 raise Undecided('directive %s on non-fn item %s' % (d[0], ispec))
     if container is not None and kind == 'fn' and not any(d[0] == 'no_impl' for d in directives):
         hdr = None
@@ -872,6 +881,8 @@ def _assemble(unit_path, apply_mutant, vacuity, hooks, mutant_post):
                 elif c2 == 'loop':
                     mm = re.match(r'(\d+)(?:\s+iter\s+(\w+)|\s+(indexed))?\s*(.*)$', r2)
                     directives.append(('loop', (int(mm.group(1)), heredoc if heredoc is not None else (mm.group(4) or None), mm.group(2) or mm.group(3))))
+                elif c2 == 'loop_body_end':
+                    directives.append(('loop_body_end', (int(r2.split()[0]), heredoc if heredoc is not None else '')))
                 elif c2 == 'after_loop':
                     directives.append(('after_loop', (int(r2.split()[0]), heredoc if heredoc is not None else '')))
                 elif c2 in ('before', 'after'):
